@@ -65,6 +65,41 @@ def gen_constants(ctx):
     return r.returncode == 0, r.stdout
 
 
+def import_closure(module):
+    """source files of `module` and everything it imports inside lean/Feox"""
+    seen, todo, files = set(), [module], []
+    while todo:
+        m = todo.pop()
+        if m in seen or not m.startswith("Feox"):
+            continue
+        seen.add(m)
+        p = os.path.join(LEAN_DIR, *m.split(".")) + ".lean"
+        if not os.path.exists(p):
+            continue
+        files.append(p)
+        for l in open(p):
+            mm = re.match(r"\s*import\s+([\w.]+)", l)
+            if mm:
+                todo.append(mm.group(1))
+    return files
+
+
+def missing_constants_used(module):
+    """constants the translator could not locate in the source (it kept their last value) that the
+    property's own theorems and models mention: for those the tie by translation is broken"""
+    side = os.path.join(LEAN_DIR, "Feox", "Gen", "constants_status.json")
+    try:
+        st = json.load(open(side))
+    except (OSError, ValueError):
+        return [], []
+    missing = st.get("missing", {})
+    used = []
+    if missing:
+        text = "\n".join(open(f).read() for f in import_closure(module) if not f.endswith(os.path.join("Gen", "Constants.lean")))
+        used = ["%s (%s)" % (k, v) for k, v in sorted(missing.items()) if re.search(r"\b%s\b" % re.escape(k), text)]
+    return used, st.get("notes", [])
+
+
 def lean_source_audit():
     """grep the Lean sources for forbidden constructs (outside comments)."""
     hits = []
@@ -127,6 +162,10 @@ def prove(ctx, module, theorems, extra_targets=("feoxdrv",)):
     if not ok:
         res["failures"].append("translator gen_constants.py failed: " + out.strip())
         return res
+    used, notes = missing_constants_used(module)
+    if used:
+        res["failures"].append("translator gen_constants.py could not locate constants this property's model uses: " + "; ".join(used))
+    res["translator_notes"] = notes
     hits = lean_source_audit()
     if hits:
         res["failures"].append("forbidden constructs in Lean sources: " + "; ".join(hits[:5]))
